@@ -191,8 +191,9 @@ package vegeta
 // ---------------------------------------------------------------------------------- C10
 
 //@ func newTdigestEstimator
-//@   trusted
-//@   ensures result != nil && fresh(result)
+//@   property C10
+//@   modifies nothing
+//@   ensures result != nil && fresh(result) && result.TDigest != nil
 
 //@ func (*LatencyMetrics).init
 //@   inline
